@@ -24,8 +24,12 @@ containment("_authentication:SaslCredential.unpack", options=_AO)
 containment("_authentication:AuthenticationCredential.unpack", options=_AO)
 
 _CO = "ControlOptions()"
+# object.__setattr__(control, "value", control_value) in unpack_ldap_control: every other field of the control is unchanged
+EXTRAS.setdefault("sym_frames", {})["value"] = [("fld_critical", "bool"), ("fld_control_type", "str"), ("fld_size", "int"), ("fld_cookie", "bytes")]
 for _n in ("LDAPControl", "PagedResultControl", "ShowDeactivatedLinkControl", "ShowDeletedControl"):
-    containment("_controls:%s.unpack" % _n, reader=None, options=_CO)
+    # the control object carries the criticality it was given (value level, C04 / C01); the base class also type and value
+    containment("_controls:%s.unpack" % _n, reader=None, options=_CO,
+                ensures=["result.critical == critical"] + (["result.control_type == control_type", "result.value == value"] if _n == "LDAPControl" else []))
 containment("_controls:unpack_ldap_control", options=_CO, ensures=[_PROGRESS])
 
 _FO = "FilterOptions()"
@@ -257,3 +261,22 @@ containment("_messages:_unpack_search_result_entry", options=_PO,
                            body_hints=["lemma_nth_rest_step(r0, k0)", "len(attributes) == k0 + 1"],
                            decreases="len(attr_reader._view)")},
             exit_hints=["r0 == %s" % _AS])
+
+# Control ::= SEQUENCE { controlType LDAPOID, criticality BOOLEAN DEFAULT FALSE, controlValue OCTET STRING OPTIONAL }
+# v1 = what follows controlType.  criticality is recognised by UNIVERSAL 1, controlValue by UNIVERSAL 4 (after the criticality if
+# there is one); anything else that follows is an unrecognised trailing element and changes nothing.
+_HASU = lambda s, num: "(len(%s) > 0 and id_class(%s) == 0 and id_number(%s) == %d)" % (s, s, s, num)
+containment("_controls:unpack_ldap_control", options=_CO, witness={"v1": "control_reader_view_1"}, witness_sorts={"v1": "bytes"},
+            ensures=[_PROGRESS, "reader._view == rest_of(%s)" % _V, "id_class(%s) == 0" % _V, "id_number(%s) == 16" % _V, "v1 == rest_of(%s)" % _C,
+                     "implies(not %s, result.critical == False)" % _HASU("v1", 1),
+                     "implies(%s and len(content_of(v1)) == 1, result.critical == (content_of(v1)[0] != 0))" % _HASU("v1", 1),
+                     "implies(not %s, (result.value is not None) == %s)" % (_HASU("v1", 1), _HASU("v1", 4)),
+                     "implies(not %s and %s, result.value == content_of(v1))" % (_HASU("v1", 1), _HASU("v1", 4)),
+                     "implies(%s, (result.value is not None) == %s)" % (_HASU("v1", 1), _HASU("rest_of(v1)", 4)),
+                     "implies(%s and %s, result.value == content_of(rest_of(v1)))" % (_HASU("v1", 1), _HASU("rest_of(v1)", 4))])
+
+# pagedResultsControl value ::= SEQUENCE { size INTEGER, cookie OCTET STRING }
+containment("_controls:PagedResultControl.unpack", reader=None, options=_CO,
+            ensures=["result.critical == critical",
+                     "implies(value is not None, result.size == tc(content_of(content_of(value))))",
+                     "implies(value is not None, result.cookie == content_of(rest_of(content_of(value))))"])
